@@ -371,11 +371,9 @@ Proof.
     destruct (rget _ _); [|exact Y]. cbn in Y. eapply rmem_rrem_sub; eauto. }
   destruct (c =? 62).
   { left. destruct a as [|ts [|b [|t [|z a]]]]; try exact Y. unfold ev_scrub in Y.
-    destruct (rget _ _); try exact Y. destruct (rmem _ _); exact Y. }
+    destruct (rget _ _); try exact Y. destruct (rmem (ts, tkey b t) (c_cor cs)); exact Y. }
   destruct (c =? 63).
-  { left. destruct a as [|ts [|z a]]; try exact Y. unfold ev_beat in Y.
-    match type of Y with context [lift_step ?X ?E] => pose proof (lift_cor X E) as LC; destruct (lift_step X E) as [cs2 o2] end.
-    cbn [fst] in *. rewrite LC in Y. exact Y. }
+  { left. destruct a as [|ts [|z a]]; exact Y. }
   destruct (c =? 64). { left. destruct a as [|ts [|z a]]; exact Y. }
   destruct (c =? 65). { left. destruct a as [|ts [|h [|z a]]]; exact Y. }
   destruct (c =? 66).
@@ -386,4 +384,76 @@ Proof.
     match type of Y with context [if ?B then _ else _] => destruct B end; [exact Y|].
     rewrite lift_cor in Y. exact Y. }
   left. rewrite lift_cor in Y. exact Y.
+Qed.
+
+(* ------------------------------------------------------------------ the run-level statement *)
+Lemma c04_no_loss_run : forall evs,
+  c04_ok_run 4 cinit evs = true ->
+  let cs := crun_state cinit evs in
+  (forall b t h p, 0 <= p < TL -> vis_ok (c_base cs) b t h p = true) /\
+  (forall tk dv H, tget (s_dtr (c_base cs)) tk = Some (dv, H) ->
+     (exists h r, In h H /\ rget (s_reps (c_base cs)) (h, tk) = Some r /\ rmem (h, tk) (c_cor cs) = false /\
+                  dv <= r_ver r <= dv + 1 /\ holds_acked (c_base cs) tk r = true) /\
+     (forall h r, In h H -> rget (s_reps (c_base cs)) (h, tk) = Some r ->
+                  dv <= r_ver r <= dv + 1 /\ holds_acked (c_base cs) tk r = true)) /\
+  (forall e oracle, k_kind (p_rpc e) = K_Read ->
+     exists cs', c04_exec_rpc cs e oracle =
+                   (cs', read_reply cs (k_ts (p_rpc e)) (tkey (k_blob (p_rpc e)) (k_tract (p_rpc e))) (k_ver (p_rpc e)) (k_len (p_rpc e)) (k_off (p_rpc e)), []) /\
+                 c_base cs' = c_base cs /\ c_cor cs' = c_cor cs) /\
+  (forall ev tk dv H h, c04_ok_ev 4 cs ev = true ->
+     tget (s_dtr (c_base cs)) tk = Some (dv, H) -> In h H -> intact_current cs tk dv h = true ->
+     let cs' := fst (cstep cs ev) in
+     (tget (s_dtr (c_base cs')) tk = Some (dv, H) /\ intact_current cs' tk dv h = true) \/
+     (exists ts b t, (ev = [60; ts; b; t] \/ ev = [61; ts; b; t]) /\ (h, tk) = (ts, tkey b t)) \/
+     (exists mode rest rp r1, ev = 7 :: mode :: rest /\ parse_rpc rest = Some (rp, r1) /\ mode <> 4 /\
+                              k_kind rp = K_PullTract /\ (h, tk) = rpc_key_of rp) \/
+     tget (s_dtr (c_base cs')) tk <> Some (dv, H)).
+Proof.
+  intros evs OK cs.
+  pose proof (c04_GL_reachable 4 evs (c04_ok_run_sched 4 evs cinit OK)) as GS. fold cs in GS.
+  pose proof (premise_run 4 evs cinit OK eq_refl) as PR. fold cs in PR.
+  split; [intros b t h p P; now apply GL_vis|]. split; [|split; [intros e oracle K; now apply c04_read_reply|]].
+  - intros tk dv H E.
+    assert (ALL : forall h r, In h H -> rget (s_reps (c_base cs)) (h, tk) = Some r ->
+                    dv <= r_ver r <= dv + 1 /\ holds_acked (c_base cs) tk r = true).
+    { intros h r I G. pose proof (GL_lower _ _ _ _ _ _ GS E I G) as LO. pose proof (GL_upper _ _ _ _ _ _ GS E G) as UP.
+      split; [lia|]. apply (GL_holds_acked _ _ dv H h r GS E G). destruct (Z.eq_dec (r_ver r) dv); [left; auto | right; lia]. }
+    split; [|exact ALL].
+    destruct (premise_host cs tk dv H PR E) as (h & I & IC). unfold intact_current, undamaged_current in IC.
+    destruct (rget (s_reps (c_base cs)) (h, tk)) as [r|] eqn:G; [|discriminate IC].
+    apply andb_true_iff in IC as [IC _]. apply andb_true_iff in IC as [_ NC]. apply negb_true_iff in NC.
+    exists h, r. destruct (ALL h r I G) as [V HA]. auto.
+  - intros ev tk dv H h OKE E I IC. exact (intact_replica_kept 4 cs ev tk dv H h OKE GS E I IC).
+Qed.
+
+
+Lemma repair_never_degrades_run :
+  (forall cs ev k r,
+     rget (s_reps (c_base cs)) k = Some r -> rmem k (c_cor cs) = false ->
+     let cs' := fst (cstep cs ev) in
+     (exists r', rget (s_reps (c_base cs')) k = Some r' /\ r_ver r <= r_ver r' /\ rmem k (c_cor cs') = false) \/
+     (exists ts b t, (ev = [60; ts; b; t] \/ ev = [61; ts; b; t]) /\ k = (ts, tkey b t)) \/
+     (exists mode rest rp r1, ev = 7 :: mode :: rest /\ parse_rpc rest = Some (rp, r1) /\ mode <> 4 /\
+                              k_kind rp = K_PullTract /\ k = rpc_key_of rp)) /\
+  (forall cs ev k,
+     rmem k (c_cor (fst (cstep cs ev))) = true ->
+     rmem k (c_cor cs) = true \/ exists ts b t, ev = [60; ts; b; t] /\ k = (ts, tkey b t)) /\
+  (forall evs ev, c04_sched 4 cinit evs = true ->
+     let cs := crun_state cinit evs in
+     c04_ok_ev 4 cs ev = true ->
+     let cs' := fst (cstep cs ev) in
+     forall tk dv' H', tget (s_dtr (c_base cs')) tk = Some (dv', H') -> tget (s_dtr (c_base cs)) tk <> Some (dv', H') ->
+     forall h r', In h H' -> rget (s_reps (c_base cs')) (h, tk) = Some r' ->
+       dv' <= r_ver r' <= dv' + 1 /\ holds_acked (c_base cs') tk r' = true /\
+       (rmem (h, tk) (c_cor cs') = true ->
+        rmem (h, tk) (c_cor cs) = true \/ exists ts b t, ev = [60; ts; b; t] /\ (h, tk) = (ts, tkey b t))).
+Proof.
+  split; [exact good_replica_kept|]. split; [exact damage_only_from_faults|].
+  intros evs ev OK cs OKE cs' tk dv' H' E' _ h r' I G'.
+  pose proof (c04_GL_reachable 4 evs OK) as GS. fold cs in GS.
+  pose proof (c04_cstep_GL 4 cs ev OKE GS) as GS'. fold cs' in GS'.
+  pose proof (GL_lower _ _ _ _ _ _ GS' E' I G') as LO. pose proof (GL_upper _ _ _ _ _ _ GS' E' G') as UP.
+  split; [lia|]. split.
+  - apply (GL_holds_acked _ _ dv' H' h r' GS' E' G'). destruct (Z.eq_dec (r_ver r') dv'); [left; auto | right; lia].
+  - intro M. exact (damage_only_from_faults cs ev (h, tk) M).
 Qed.
